@@ -22,6 +22,14 @@ func scanIndexVectors(body ast.Node) idxInfo {
 	info := idxInfo{map[string]bool{}, map[string]bool{}}
 	decl := map[string]bool{}
 	ast.Inspect(body, func(n ast.Node) bool {
+		if inc, ok := n.(*ast.IncDecStmt); ok { // idx[0]++
+			if ix, ok := inc.X.(*ast.IndexExpr); ok {
+				if x, ok := ix.X.(*ast.Ident); ok {
+					info.timeIdx[x.Name] = true
+				}
+			}
+			return true
+		}
 		as, ok := n.(*ast.AssignStmt)
 		if !ok || len(as.Lhs) != 1 || len(as.Rhs) != 1 {
 			return true
